@@ -141,6 +141,16 @@ func genCfg(r *Rng) *handCfg {
 			}
 		}
 	}
+	if r.Chance(0.05) {
+		// big chips: the same table with every amount multiplied by a large factor (above 2^31, above 2^53 for the total):
+		// the engine's arithmetic is int64 throughout; a narrower or floating intermediate would show only here
+		k := []int64{1000003, 1 << 31, 4294967311, 1099511627}[r.Intn(4)]
+		c.ante, c.sb, c.bb, c.bd = c.ante*k, c.sb*k, c.bb*k, c.bd*k
+		for i := range c.bank {
+			c.bank[i] = c.bank[i]*k + int64(r.Intn(3))
+		}
+		c.big = true
+	}
 	return c
 }
 
@@ -300,6 +310,9 @@ func playHand(o *Out, r *Rng, cfgLine string, probeP, viewP, hopP, malP float64)
 		return
 	}
 	o.Count("engine.hands")
+	if h.cfg.bb > 1<<20 || (len(h.cfg.bank) > 0 && h.cfg.bank[0] > 1<<30) {
+		o.Count("engine.big_chip_hands")
+	}
 	o.Count(fmt.Sprintf("engine.seats.%d", len(h.cfg.bank)))
 	if h.cfg.hole == 4 {
 		o.Count("engine.omaha")
